@@ -74,20 +74,18 @@ pub fn run_pass(pm: &mut PassManager, ir: &mut Context, name: &str) -> Result<bo
 
 pub struct FnCfg {
     pub name: String,
-    pub term: String, // Coq term of type C04.Model.fn
+    pub term: String, // number stream, see export_fn
     pub nblocks: usize,
     pub ninstrs: usize,
 }
 
-fn coq_list(items: &[String]) -> String {
-    format!("[{}]", items.join(";"))
-}
-
-/// Export the CFG of `f`. Value ids are assigned per function in order of first appearance
-/// (definitions and uses alike), so a use of a value that is defined nowhere in the function
-/// gets an id without a definition. Constants are not values of the CFG model (always in scope).
-/// A branch to a block that is not in the function's block list gets the out-of-range index
-/// `nblocks`.
+/// Export the CFG of `f` as the number stream decoded by coq/C04/Judge.v (dec_fn):
+///   nblocks { nargs arg* ninstrs { id nops op* kind } }   kind = 0 plain | 1+n terminator with n
+///   successors followed by n * (block-index passed-arg-count).
+/// Value ids are assigned per function in order of first appearance (definitions and uses alike), so
+/// a use of a value that is defined nowhere in the function gets an id without a definition.
+/// Constants are not values of the CFG model (always in scope). A branch to a block that is not in
+/// the function's block list gets the out-of-range index `nblocks`.
 pub fn export_fn(ctx: &Context, f: Function) -> FnCfg {
     let blocks: Vec<Block> = f.block_iter(ctx).collect();
     let bidx: HashMap<Block, usize> = blocks.iter().enumerate().map(|(i, b)| (*b, i)).collect();
@@ -96,44 +94,44 @@ pub fn export_fn(ctx: &Context, f: Function) -> FnCfg {
         let n = vid.len();
         *vid.entry(v).or_insert(n)
     };
-    let mut bl = vec![];
+    let mut out: Vec<usize> = vec![blocks.len()];
     let mut ninstrs = 0;
     for b in &blocks {
-        let args: Vec<String> = b.arg_iter(ctx).map(|a| id_of(*a).to_string()).collect();
-        let mut body = vec![];
-        for ins in b.instruction_iter(ctx) {
+        let args: Vec<usize> = b.arg_iter(ctx).map(|a| id_of(*a)).collect();
+        out.push(args.len());
+        out.extend(args);
+        let body: Vec<Value> = b.instruction_iter(ctx).collect();
+        out.push(body.len());
+        for ins in body {
             ninstrs += 1;
-            let id = id_of(ins);
+            out.push(id_of(ins));
             let Some(i) = ins.get_instruction(ctx) else {
-                // not an instruction value inside an instruction list: export as an operand-less plain instr
-                body.push(format!("mkI {} [] None", id));
+                // not an instruction value inside an instruction list: an operand-less plain instr
+                out.push(0);
+                out.push(0);
                 continue;
             };
-            let ops: Vec<String> = i
-                .op
-                .get_operands()
-                .into_iter()
-                .filter(|o| !o.is_constant(ctx))
-                .map(|o| id_of(o).to_string())
-                .collect();
-            let succs = if i.op.is_terminator() {
-                let ss: Vec<String> = match &i.op {
+            let ops: Vec<usize> = i.op.get_operands().into_iter().filter(|o| !o.is_constant(ctx)).map(|o| id_of(o)).collect();
+            out.push(ops.len());
+            out.extend(ops);
+            if i.op.is_terminator() {
+                let ss: Vec<&sway_ir::BranchToWithArgs> = match &i.op {
                     InstOp::Branch(t) => vec![t],
                     InstOp::ConditionalBranch { true_block, false_block, .. } => vec![true_block, false_block],
                     _ => vec![],
+                };
+                out.push(1 + ss.len());
+                for t in ss {
+                    out.push(bidx.get(&t.block).copied().unwrap_or(blocks.len()));
+                    out.push(t.args.len());
                 }
-                .into_iter()
-                .map(|t| format!("({},{})", bidx.get(&t.block).copied().unwrap_or(blocks.len()), t.args.len()))
-                .collect();
-                format!("(Some {})", coq_list(&ss))
             } else {
-                "None".to_string()
-            };
-            body.push(format!("mkI {} {} {}", id, coq_list(&ops), succs));
+                out.push(0);
+            }
         }
-        bl.push(format!("mkB {} {}", coq_list(&args), coq_list(&body)));
     }
-    FnCfg { name: f.get_name(ctx).to_string(), term: coq_list(&bl), nblocks: blocks.len(), ninstrs }
+    let term = out.iter().map(|n| n.to_string()).collect::<Vec<_>>().join(" ");
+    FnCfg { name: f.get_name(ctx).to_string(), term, nblocks: blocks.len(), ninstrs }
 }
 
 pub fn all_functions(ctx: &Context) -> Vec<Function> {
